@@ -187,8 +187,8 @@ func (r *HttpRequest) RunOperation(opType op.BinaryOpType, right object.Object) 
 }
 
 func (r *HttpRequest) AddHeaders(headers *object.Map) {
-	for k, v := range headers.Value() {
-		r.AddHeader(k, v)
+	for _, k := range headers.SortedKeys() {
+		r.AddHeader(k, headers.Value()[k])
 	}
 }
 
